@@ -60,6 +60,28 @@ def opcode_entries(prog, names):
     return out
 
 
+def pub_attr(I, inst, name):
+    """what a caller reads as inst.<name> -- through the class's own property, wherever the class keeps the value"""
+    if not isinstance(inst, Instance):
+        return None
+    try:
+        return I.get_attr(inst, name, None, _F("read .%s" % name))
+    except PyRaise:
+        return None
+
+
+def set_pub(I, inst, name, value):
+    """inst.<name> = value, through the class's own setter"""
+    I.set_attr(inst, name, value, None, _F("store .%s" % name))
+
+
+PUBLIC = ("cdb", "dataout", "datain", "result", "sense", "raw_sense_data")
+
+
+def pub_view(I, inst):
+    return {n: pub_attr(I, inst, n) for n in PUBLIC}
+
+
 class Construction:
     def __init__(self, cls, setname, opkey, opcode, labels, args, path):
         self.cls = cls
@@ -73,6 +95,11 @@ class Construction:
     @property
     def inst(self):
         return self.path.value[0] if self.path.returned else None
+
+    @property
+    def pub(self):
+        """the command's public attributes as read (through its properties) right after construction"""
+        return self.path.value[2] if self.path.returned else {}
 
     def label(self):
         return "%s/%s %s%s" % (self.setname, self.opkey,
@@ -122,7 +149,8 @@ def construct_all(prog, key, entry, sets=None, max_combos=600, extra_kwargs=None
                 if extra_kwargs:
                     kw.update(extra_kwargs())
                 holder["args"] = kw
-                return (I.instantiate(cls, [op], dict(kw), None, _F("construct %s" % clsname)), kw)
+                inst = I.instantiate(cls, [op], dict(kw), None, _F("construct %s" % clsname))
+                return (inst, kw, pub_view(I, inst))
 
             for p in I.explore(thunk, max_paths=64):
                 a = dict(p.value[1]) if p.returned else dict(holder.get("args", {}))
